@@ -29,7 +29,7 @@ type scriptServer struct {
 }
 
 func newScriptServer() *scriptServer {
-	l, err := net.Listen("tcp", "127.0.0.1:0")
+	l, err := net.Listen("tcp", myIP+":0")
 	if err != nil {
 		panic(err)
 	}
@@ -142,7 +142,7 @@ func parseVia(c *client.Client, ss *scriptServer, stream []byte, sk, gk glow.Pub
 	for try := 0; try < 3; try++ {
 		ss.set("reply", stream)
 		t0 := time.Now().Unix()
-		off, bits, newGCA, newID, servers, err := c.VerifServerSync(client.GCAServer{Location: "127.0.0.1", TcpPort: ss.port()}, sk, gk)
+		off, bits, newGCA, newID, servers, err := c.VerifServerSync(client.GCAServer{Location: myIP, TcpPort: ss.port()}, sk, gk)
 		if time.Now().Unix() != t0 {
 			continue // the second ticked during the call: the clock value the parser saw is ambiguous
 		}
